@@ -8,14 +8,24 @@ import vlib
 from runner import Check
 
 
+def pflood_models(ck, invariant_note):
+    ck.model("PFlood-2x3-queen", "MCPFlood.tla", "MCPFlood_quick.cfg", note=invariant_note)
+    ck.model("PFlood-profile5", "MCPFlood.tla", "MCPFlood_p5.cfg", note=invariant_note)
+    if ck.tier == "thorough":
+        ck.model("PFlood-3x3-queen", "MCPFlood.tla", "MCPFlood_q33.cfg", note=invariant_note, timeout=3000)
+        ck.model("PFlood-3x3-rook-looped-masked", "MCPFlood.tla", "MCPFlood_r33.cfg", note=invariant_note, timeout=3000)
+
+
 def plan_C01(ck):
     q = ck.tier == "quick"
+    pflood_models(ck, "L2 priority flood, all queue tie-breaks: terminal states satisfy Drains (every node connected to a base level keeps a strictly lower unmasked neighbour) and FlowContract!C02")
     ck.traces(cf.resolver_cases(ck.seed, 150 if q else 4000, 5 if q else 8, "C01"), ["C01"], tag="c01",
               nontrivial=cf.nontrivial_world)
 
 
 def plan_C02(ck):
     q = ck.tier == "quick"
+    pflood_models(ck, "L2 priority flood refines FlowContract!C02 (spill level + at most N increments, fixed nodes untouched) for every field over the levels, every tie-break")
     ck.traces(cf.resolver_cases(ck.seed + 1, 150 if q else 4000, 5 if q else 8, "C02"), ["C02"], tag="c02",
               nontrivial=cf.nontrivial_world)
 
@@ -50,7 +60,23 @@ def plan_C03(ck):
               nontrivial=cf.nontrivial_world)
 
 
-PLANS = {"C01": plan_C01, "C02": plan_C02, "C03": plan_C03, "C04": plan_C04, "C05": plan_C05, "C06": plan_C06,
+def plan_C09(ck):
+    q = ck.tier == "quick"
+    ck.model("PFloodTwice-total-order", "MCPFloodTwice.tla", "MCPFloodTwice_total.cfg", workers=8,
+             note="two runs with independent queue tie-breaks give the same surface when the heap order is total")
+    ck.model("PFloodTwice-elevation-only-order", "MCPFloodTwice.tla", "MCPFloodTwice_ties.cfg", workers=8, expect="violation",
+             note="negative control: with an elevation-only heap order TLC finds two runs that differ (history dependence)")
+    ck.traces(cf.history_cases(ck.seed + 9, 150 if q else 4000, 5 if q else 7, "C09"), ["C09"], tag="c09",
+              nontrivial=cf.nontrivial_world)
+
+
+def plan_C16(ck):
+    q = ck.tier == "quick"
+    ck.traces(cf.snapshot_cases(ck.seed + 16, 100 if q else 3000, 4 if q else 6, "C16"), ["C16"], tag="c16",
+              nontrivial=cf.nontrivial_world)
+
+
+PLANS = {"C09": plan_C09, "C16": plan_C16, "C01": plan_C01, "C02": plan_C02, "C03": plan_C03, "C04": plan_C04, "C05": plan_C05, "C06": plan_C06,
          "C19": plan_C19}
 
 
